@@ -43,7 +43,7 @@ type End struct {
 	// than that deadline (the read then fails with a timeout; what the peer sends arrives afterwards). Scheduled
 	// runs have no clock: a peer may be slower than any finite deadline, so expiry is a choice of the plan.
 	// LateAt lists which of those reads (0-based count of reads that found nothing under an armed deadline) time out.
-	LateAt []int
+	LateAt   []int
 	lateSeen int
 	// Expired counts the reads that timed out.
 	Expired int
